@@ -502,6 +502,9 @@ func genOpts(rng *hx.Rng) string {
 func genShrink(rng *hx.Rng, n int) []string {
 	ops := []string{"shrink " + genOpts(rng)}
 	nk := rng.Range(4, 6)
+	if rng.Chance(1, 8) { // a larger universe: maps of ten and more entries, several growth steps of the key slice / the Go map
+		nk = rng.Range(10, 30)
+	}
 	for i := 0; i < n; i++ {
 		k := rng.Intn(nk)
 		var op string
@@ -809,6 +812,9 @@ func (w *rmapW) exec(r *hx.Run, f []string) (string, string) {
 func genRMap(rng *hx.Rng, n int) []string {
 	ops := []string{"rmap " + genOpts(rng)}
 	nk := rng.Range(4, 6)
+	if rng.Chance(1, 8) { // a larger universe: maps of ten and more entries, several growth steps of the key slice / the Go map
+		nk = rng.Range(10, 30)
+	}
 	present := map[int]bool{} // the generator follows the size to aim counts at it
 	for i := 0; i < n; i++ {
 		k := rng.Intn(nk)
